@@ -14,7 +14,7 @@ import os
 import random
 import shutil
 
-from .. import dirrun, encode, project, seams
+from .. import genpel, dirrun, encode, project, seams
 
 ID = 'C10'
 LEVEL = 'model_checking'
@@ -70,6 +70,15 @@ def run_case(case):
                             creator=rng.choice(['O', 'B', 'H', 'H']), lead=True)
         nm = rng.choice(['2023030818402711_%08X', '2024_%08X', 'x_%08X', '%08X_fan_fault', 'pel-%08X-copy.bin',
                          '2023051210203041_%08X.pel', '%08X']) % e
+        r_ = rng.random()
+        if r_ < .06:
+            pel['secs'] = []                                    # the two headers only: no reference code at all
+        elif r_ < .12:
+            pel['secs'] = [s_ for s_ in pel['secs'] if s_['kind'] != 'SRC'] or [genpel.gen_mt(rng)]   # sections, but no SRC
+        elif r_ < .18:
+            for s_ in pel['secs']:
+                if s_['kind'] == 'SRC':
+                    s_['ascii'] = [0x20] * 32                   # an SRC whose reference code is blank
         data = bytes(encode.encode(pel))
         files.append((nm, data))
         fattrs.append(dirrun.attrs(pel, nm, data))
